@@ -44,6 +44,14 @@ def main():
         mname = os.path.basename(src.rstrip("/"))
         shutil.copytree(src, os.path.join(WT, "_mut", mname))
         rel = "_mut/%s" % mname
+        # demo scripts written by sub-agents may hard-code their own worktree; point them at the scratch one
+        rs = os.path.join(WT, rel, "demo", "run.sh")
+        if os.path.exists(rs):
+            import re
+            txt = open(rs).read()
+            txt = re.sub(r"/tmp/wt/C\d+", WT, txt)
+            txt = txt.replace(WT + "/target", TGT)
+            open(rs, "w").write(txt)
         rc, out = sh("git apply --check %s/patch.diff" % rel, cwd=WT)
         res["patch_applies"] = rc == 0
         ok = rc == 0
